@@ -38,6 +38,7 @@ type RunResult struct {
 	Halted      string         `json:"halted,omitempty"`
 	TxOK        int            `json:"tx_ok"`
 	TxFail      int            `json:"tx_fail"`
+	Trace       string         `json:"trace"`
 }
 
 const maxStepsPerHeight = 12
@@ -77,7 +78,8 @@ func executePlan(plan *Plan, replay bool, trace bool) (w *World, res *RunResult)
 		}
 		if plan.Config.FaultFree && w.Cmt.Halted == "" {
 			// bounded liveness once the workload stops: plain blocks, then the queues must be empty
-			k := 6 + w.M.Owed.pending()/4
+			// the tail is sized by the observed hand-over rate: one voted block hash per block, the other kinds at least eight
+			k := 6 + len(w.M.Owed.Q["btcblock"]) + w.M.Owed.pending()/8
 			for i := 0; i < k; i++ {
 				st := mkStep("block", &BlockArgs{}, 0)
 				st.I = len(plan.Steps)
@@ -105,6 +107,13 @@ func (res *RunResult) collect(w *World) {
 	res.StepKinds = s.Steps
 	res.OracleEvals = s.OracleEvals
 	res.TxOK, res.TxFail = s.TxOK, s.TxFail
+	res.Trace = hx(w.TraceH)
+	var vk []string
+	for _, v := range w.Viol {
+		vk = append(vk, v.Property+"/"+v.Oracle+"/"+v.Shape)
+	}
+	sort.Strings(vk)
+	res.Trace = hx(sha([]byte(res.Trace), []byte(strings.Join(vk, ","))))
 	for k := range s.Interleavings {
 		res.Interleave = append(res.Interleave, k)
 	}
